@@ -378,6 +378,7 @@ class Ctx:
         if f is not None:
             if f['id'] not in [k['id'] for k in self.known]: self.known.append(f)
             f.setdefault('_hits', 0); f['_hits'] += 1
+            f.setdefault('_first', dict(what=what, case=case))
             return False
         self.violations.append(dict(what=what, case=case))
         return True
@@ -399,7 +400,8 @@ class Ctx:
             evaluations=self.evaluations, distinct_nontrivial=len(self.distinct),
             rule=getattr(self, 'rule', 'see correspondence'), samples=self.samples[:8] or ['(no cases run: proof obligations failed first)'],
             input_distribution=self.dist, correspondence={k: dict(cases=v['cases'], disagreements=v['disagreements']) for k, v in self.corr.items()},
-            gen_changed_vs_baseline=getattr(self, 'gen_changed', []), known_findings_observed=[k['id'] for k in self.known], notes=self.notes[:20])
+            gen_changed_vs_baseline=getattr(self, 'gen_changed', []), known_findings_observed=[k['id'] for k in self.known],
+            known_finding_examples=[dict(id=k['id'], hits=k.get('_hits', 0), first=json.loads(json.dumps(k.get('_first'), default=str)[:100000]) if len(json.dumps(k.get('_first'), default=str)) < 100000 else str(k.get('_first'))[:3000]) for k in self.known], notes=self.notes[:20])
         if explanation: cov['explanation'] = explanation
         if extra_cov: cov.update(extra_cov)
         rc = 0
